@@ -344,7 +344,7 @@ def run_schedule(sched: dict, fallback_base: str, repo: str, result_cb) -> None:
     S.abort_cb = finish
     try:
         sim.enter_sandbox(fallback_base)
-        world = sim.World()
+        world = sim.World(sched.get("fsclock"))
         sim._the_world = world
         world.load_tree(sched.get("tree", {}))
         plan = sim.FaultPlan(sched.get("faults", []))
